@@ -321,7 +321,7 @@ Definition free_dedicated (v : vam) (slot : Z) : vam * out unit :=
 (* freeSingleAllocation *)
 Definition free_single (v : vam) (slot : Z) : vam * out unit :=
   let a := get_alloc v slot in
-  if a_kind a =? 1 then bl_free c v (a_lref a) slot
+  if a_kind a =? 1 then bl_free c v (a_lref a) slot false
   else if a_kind a =? 2 then free_dedicated v slot
   else (v, PANIC).
 
